@@ -61,7 +61,7 @@ Proof.
     apply andb_prop in E. destruct E as [E _]. apply Nat.eqb_eq in E. subst e1. cbn. apply NE. exact He1.
 Qed.
 
-Lemma nf_init progs : (forall p, In p progs -> Forall is_exec p) -> nf_inv (init progs).
+Lemma nf_init g progs : (forall p, In p progs -> Forall is_exec p) -> nf_inv (init_g g progs).
 Proof.
   intro Hp. split.
   - cbn. discriminate.
@@ -91,7 +91,7 @@ Proof.
         destruct (invCD_reach _ _ Hre) as [_ ID]. destruct (invET_reach _ _ Hre) as [_ IT].
         eapply nf_step; eauto. apply (Hf t c). left. reflexivity. }
   assert (N : nf_inv s).
-  { eapply G; eauto; [exists []; reflexivity | apply nf_init; exact Hp]. }
+  { eapply G; eauto; [exists false, []; reflexivity | apply (nf_init false); exact Hp]. }
   intros t th Ht. destruct N as [_ _ _ NT]. apply (NT _ _ Ht).
 Qed.
 
